@@ -198,12 +198,10 @@ def run(scn, stats):
         # staged or active at the moment of the failure (timing-dependent diagnostics, not the cause)
         ep_ = [e for e in ep_ if "UnreachableJoinError" not in e[0]]
         eh_ = [e for e in eh_ if "UnreachableJoinError" not in e[0]]
-    if sp == "failed":
-        # fail-fast: the eager twin may have run (and logged) more before the failure, never less
-        rest = collections.Counter(ep_) - collections.Counter(eh_)
-        if rest:
-            raise Violation("errors-differ", dict(info, status=sp, only_in_paused_twin=sorted(rest.elements()), paused_twin=ep_, plain_twin=eh_, history=hist, events=ev))
-    elif sp == "succeeded" and ep_ != eh_:
+    # (when the final status is failed the two twins legitimately differ in what else ran - and logged -
+    # before the failure stopped the workflow, in either direction: a task held back by the pause may never
+    # run in one twin and fail in the other; only the status is compared there)
+    if sp == "succeeded" and ep_ != eh_:
         raise Violation("errors-differ", dict(info, status=sp, paused_twin=ep_, plain_twin=eh_, history=hist, events=ev))
     if sp == "succeeded":
         ep = collections.Counter(t for t, r, i in drvp.dispatched)
